@@ -44,6 +44,10 @@ def main():
     ap.add_argument("--keep", action="store_true")
     ap.add_argument("--clean", action="store_true")
     a = ap.parse_args()
+    # one mutant run at a time: the scratch directories are shared
+    import fcntl
+    lock = open("/tmp/vm.lock", "w")
+    fcntl.flock(lock, fcntl.LOCK_EX)
     if a.clean:
         cleanup(True)
         return 0
